@@ -596,6 +596,27 @@ impl Runner for R {
                 self.check_roundtrip(&out, o);
                 read_text(&out)
             }
+            ["mutall"] => {
+                if self.writer.is_none() {
+                    return "no-writer".to_string();
+                }
+                let f = self.file.bytes();
+                let mut try_file = |b: Vec<u8>, what: String, o: &mut Oracle| {
+                    if let Err(msg) = catch(|| read_text(&read_file(b))) {
+                        o.fail("C15/reader-panics-on-damaged-file", format!("{}: {}", what, msg));
+                    }
+                };
+                for i in 0..f.len() {
+                    for x in [0x01u8, 0x80, 0xff] {
+                        let mut b = f.clone();
+                        b[i] ^= x;
+                        try_file(b, format!("byte {} xor {:#x}", i, x), o);
+                    }
+                    try_file(f[..i].to_vec(), format!("truncated to {} bytes", i), o);
+                }
+                o.add("damaged_files_swept", 4 * f.len() as u64);
+                format!("n {}", 4 * f.len())
+            }
             ["last"] => {
                 // the last snapshot the reader reports, in full
                 if self.writer.is_none() {
@@ -846,6 +867,18 @@ impl<'a> G<'a> {
         self.line("read".to_string());
         self.line("last".to_string());
         self.line("file".to_string());
+        // every single-byte corruption and truncation of short recordings (objects of ordinal and UUID
+        // types, key frame + deltas, messages): the reader must not panic
+        for k in 0..(if thorough { 12 } else { 2 }) {
+            self.line("new 302e36 646d31 none 1 s 0 32303236 -".to_string());
+            self.line(format!("snap {} o3.1:1,2,3,4,5;u22ca938d13803e2b9e7bd2558ea6be11.6:-5,0", 10 + k));
+            self.line(format!("snap {} o3.1:1,2,3,4,6;u22ca938d13803e2b9e7bd2558ea6be11.6:-5,0;u0dc77a02bfee3a53ac8e0bb0241bd722.6:{}", 11 + k, k));
+            self.line("motd 68656c6c6f".to_string());
+            self.line(format!("snap {} u0dc77a02bfee3a53ac8e0bb0241bd722.6:{};o4.2:10,20,1,0", 300 + k, k));
+            self.line("chat 0 -1 6869".to_string());
+            self.line(format!("snap {} -", 301 + k));
+            self.line("mutall".to_string());
+        }
         for _ in 0..n_hist {
             let n = 2 + self.rng.below(30) as usize;
             self.history(n, true);
